@@ -32,6 +32,12 @@ def step (t : List String) : String :=
       let c := sabr_atm_cubic bv k t beta rho nu
       showFloat (((c.1 * alpha + c.2.1) * alpha + c.2.2.1) * alpha + c.2.2.2)
     | _ => "bad-op"
+  | "select" :: n :: rest =>
+    match n.toNat?, floats? rest with
+    | some n, some xs =>
+      if xs.length != 2 * n then "bad-op"
+      else showExcept showFloat (selectAlpha (1e-10 : Float) (1.0 : Float) ((xs.take n).zip (xs.drop n)))
+    | _, _ => "bad-op"
   | _ => "bad-op"
 
 def main : IO Unit := loop step
